@@ -148,6 +148,8 @@ theorem C03_add_keeps_all (r : R) (t : Tag) (hs : Sorted r.tags) (hpo : r.po ≤
 
 /-! ## the streaming reader reads what a random-access reader would -/
 
+def sampleTb : Tables := { makeOfString := fun _ => none, makeName := fun _ => [], canonModel := fun _ => none, appleModel := fun _ => none }
+
 /-- **One forward read is exact**: with the stream coherent with the file F (`Coh`: the unread bytes are F from the
 reader's position on), a tag whose value lies at or after the position, inside F and the Exif length, within the
 reader's window (4096 bytes behind a bufio.Reader, 1024 without) is read successfully, the bytes are exactly
@@ -163,12 +165,12 @@ the other without overlap (in queue order), inside the file, the Exif length and
 before the reader's position, then the work loop ends with every read it made successful and equal to the bytes its tag
 points at (`Exact`: the ghost record of reads holds `(t, some F[t.off, t.off+t.size))` only), whatever the field parsers
 do with them; the stream stays coherent with the file. -/
-theorem C03_forward_layout_exact {F : Bytes} (tb : Tables) (fuel : Nat) (r r' : R) (hc : Coh F r) (he : Exact F r)
+theorem C03_forward_layout_exact {F : Bytes} {ex0 : Rec} (tb : Tables) (fuel : Nat) (r r' : R) (hc : Coh F r) (he : Exact tb ex0 F r)
     (hlay : (r.tags.drop r.pos).Pairwise (fun a b => a.off + a.size ≤ b.off))
     (hall : ∀ t ∈ r.tags.drop r.pos, t.typ ≠ tIfd ∧ ¬(t.id = 0x014a ∧ t.ifd = ifd0) ∧ t.off + t.size ≤ F.length ∧
       t.off + t.size ≤ r.exifLength ∧ t.size ≤ readLimit r)
     (hpo : ∀ t ∈ r.tags.drop r.pos, r.po ≤ t.off)
-    (h : ifdLoop tb fuel r = .ok r') : Coh F r' ∧ Exact F r' :=
+    (h : ifdLoop tb fuel r = .ok r') : Coh F r' ∧ Exact tb ex0 F r' :=
   ifdLoop_forward tb fuel r r' hc he (Chain.of_pairwise _ _ hlay hall hpo) h
 
 /-- non-vacuity: a 40-byte file, a fresh reader at position 10 with two pending ASCII tags at 12 (4+... bytes) and 20 -/
@@ -176,10 +178,10 @@ example : let F : Bytes := List.replicate 40 65
     let t1 : Tag := { off := 12, count := 6, id := 0x010f, typ := tASCII, ifd := ifd0, idx := 0, order := .little }
     let t2 : Tag := { off := 20, count := 8, id := 0x0110, typ := tASCII, ifd := ifd0, idx := 0, order := .little }
     let r : R := { rest := F.drop 10, po := 10, exifLength := 4096, buffered := true, tags := [t1, t2] }
-    Coh F r ∧ Exact F r ∧ (r.tags.drop r.pos).Pairwise (fun a b => a.off + a.size ≤ b.off) ∧
+    Coh F r ∧ Exact sampleTb r.ex F r ∧ (r.tags.drop r.pos).Pairwise (fun a b => a.off + a.size ≤ b.off) ∧
     (∀ t ∈ r.tags.drop r.pos, r.po ≤ t.off ∧ t.off + t.size ≤ F.length ∧ t.size ≤ readLimit r) := by
   refine ⟨⟨rfl, by decide, by decide⟩, ?_, ?_, ?_⟩
-  · intro e he; cases he
+  · exact Exact.init _ _ _ rfl rfl
   · decide
   · intro t ht
     simp only [List.drop_zero, List.mem_cons, List.not_mem_nil, or_false] at ht
@@ -197,7 +199,7 @@ theorem C03_flat_tiff_exact (tb : Tables) (F : Bytes) (buffered : Bool) (h : Hdr
     (hsmall : F.length < 2 ^ 32)
     (hd : FlatDir F { off := 0, base := 0, order := h.order, typ := h.firstIfdType, idx := 0 } h.firstIfd cnt (4 * 1024 * 1024)
       (if buffered then bufioSize else scratchSize))
-    (hres : decodeTiff tb F buffered h = .ok (r', e)) : Coh F r' ∧ Exact F r' :=
+    (hres : decodeTiff tb F buffered h = .ok (r', e)) : Coh F r' ∧ Exact tb { imageType := h.imageType } F r' :=
   decodeTiff_flat tb F buffered h cnt r' e hsmall hd hres
 
 /-! non-vacuity: a 44-byte little-endian TIFF (Orientation embedded, Make "Canon" out of line) meets `FlatDir`, and the
@@ -237,7 +239,6 @@ example : FlatDir sampleF sampleIfd 8 2 (4 * 1024 * 1024) bufioSize := by
       · simp [sT0, Tag.isEmbedded, Tag.size, typeSize, tIfd] at ho'
       · exact absurd rfl hne
 
-def sampleTb : Tables := { makeOfString := fun _ => none, makeName := fun _ => [], canonModel := fun _ => none, appleModel := fun _ => none }
 def readsOf : Outcome (R × Option ErrKind) → List (Tag × Option Bytes)
   | .ok (r, _) => r.reads
   | _ => []
@@ -258,7 +259,7 @@ theorem C03_nested_tiff_exact (tb : Tables) (F : Bytes) (buffered : Bool) (h : H
     (hroot : DirOK F { off := 0, base := 0, order := h.order, typ := h.firstIfdType, idx := 0 } h.firstIfd cnt (4 * 1024 * 1024)
       (if buffered then bufioSize else scratchSize) (extent F))
     (hrootW : ∀ x, IsEntry F { off := 0, base := 0, order := h.order, typ := h.firstIfdType, idx := 0 } h.firstIfd cnt x → W x)
-    (hres : decodeTiff tb F buffered h = .ok (r', e)) : Coh F r' ∧ Exact F r' :=
+    (hres : decodeTiff tb F buffered h = .ok (r', e)) : Coh F r' ∧ Exact tb { imageType := h.imageType } F r' :=
   decodeTiff_nested tb F buffered h cnt r' e W hsmall w hroot hrootW hres
 
 /-! non-vacuity: a 70-byte TIFF — IFD0 {Make "Canon" at 38, Exif pointer to 44}, Exif directory at 44 {LensModel "RF 50mm"
@@ -384,5 +385,37 @@ example : World nF (4 * 1024 * 1024) bufioSize (fun x => x ∈ [nM, nP, nL]) ∧
 /-- and the model run on it makes exactly two reads, Make then LensModel, each with the bytes at its offset -/
 example : readsOf (decodeTiff sampleTb nF true { order := .little, firstIfd := 8, firstIfdType := ifd0, exifLength := 0, imageType := 0 })
     = [(nM, some [67, 97, 110, 111, 110, 0]), (nL, some [82, 70, 32, 53, 48, 109, 109, 0])] := by decide +kernel
+
+/-- **Streaming = random access (the refinement).**  `parseTagV` is the field-parser layer written as a pure function of
+the record so far, the tag and the bytes of its value (generated from the model's own parsers and proved equal to them,
+Lemmas/ExifValue); `idealRun tb F ex0 ts` applies it to a list of tags, handing each tag exactly F[t.off, t.off+t.size).
+For IFD0 + Exif + GPS directories in a forward layout (hypotheses of `C03_nested_tiff_exact`): the record DecodeTiff ends
+with is the record this random-access decoder computes from the tags the streaming reader parsed, in the order it parsed
+them (`r'.parsed`, a ghost record: embedded entries as the directory is read, out-of-line values in file order) — the
+forward-only, windowed, queue-driven reading changes nothing about which bytes a field is made from. -/
+theorem C03_streaming_equals_random_access (tb : Tables) (F : Bytes) (buffered : Bool) (h : Hdr) (cnt : Nat) (r' : R) (e : Option ErrKind)
+    (W : Tag → Prop) (hsmall : F.length < 2 ^ 32)
+    (w : World F (4 * 1024 * 1024) (if buffered then bufioSize else scratchSize) W)
+    (hroot : DirOK F { off := 0, base := 0, order := h.order, typ := h.firstIfdType, idx := 0 } h.firstIfd cnt (4 * 1024 * 1024)
+      (if buffered then bufioSize else scratchSize) (extent F))
+    (hrootW : ∀ x, IsEntry F { off := 0, base := 0, order := h.order, typ := h.firstIfdType, idx := 0 } h.firstIfd cnt x → W x)
+    (hres : decodeTiff tb F buffered h = .ok (r', e)) :
+    idealRun tb F { imageType := h.imageType } r'.parsed = .ok r'.ex :=
+  (decodeTiff_nested tb F buffered h cnt r' e W hsmall w hroot hrootW hres).2.ref
+
+/-- the streaming parser of one tag is the pure function of its one read (for every reader state) -/
+theorem C03_parser_is_function_of_its_read (tb : Tables) (r : R) (t : Tag) :
+    omap (fun r' => r'.ex) (parseTag tb r t) = parseTagV tb r.ex t (readTagValue r t).buf (readTagValue r t).err :=
+  ValO.parseTag tb r t
+
+/-- on the sample: the reader parsed Make then LensModel, and the random-access decoder on those two tags gives the
+record with make = "Canon" and lensModel = "RF 50mm" -/
+def parsedOf : Outcome (R × Option ErrKind) → List Tag
+  | .ok (r, _) => r.parsed
+  | _ => []
+example : parsedOf (decodeTiff sampleTb nF true { order := .little, firstIfd := 8, firstIfdType := ifd0, exifLength := 0, imageType := 0 }) = [nM, nL] := by
+  decide +kernel
+example : (match idealRun sampleTb nF {} [nM, nL] with | .ok ex => (ex.make, ex.lensModel) | _ => ([], [])) =
+    ([67, 97, 110, 111, 110], [82, 70, 32, 53, 48, 109, 109]) := by decide +kernel
 
 end Imeta.Exif
